@@ -347,6 +347,34 @@ def make_scenario(cfg, loop):
     return TimeoutScenario(cfg, loop)
 
 
+def two_step_job(job):
+    """Any internal message from the gateway node (every type, three payloads), then each message that must be
+    reacted to: the reaction is still the specified one (no hidden mode that a report can switch)."""
+    version, ts = job
+    viols = []
+    n = 0
+    triggers = [[255, 255, 3, 0, 3, ""], [1, 255, 3, 0, 6, ""], [1, 255, 3, 0, 1, ""], [1, 3, 2, 0, 2, ""]]
+    base = [["line", [1, 255, 0, 0, 17, "2.0"]], ["line", [1, 3, 0, 0, 3, ""]], ["line", [1, 3, 1, 0, 2, "v"]]]
+    for t in ts:
+        if t == R.I_VERSION:
+            continue
+        for p in ("0", "1", ""):
+            for sender in (0, 1):
+                n += 1
+                cfg = {"version": version, "metric": True, "tz": "PST8", "t": T_WINTER, "reply": "2.2.0"}
+                mon = Monitor(cfg)
+                hist = base + [["line", [sender, 255, 3, 0, t, p]]] + [["line", tr] for tr in triggers]
+                for i, ev in enumerate(hist):
+                    v = mon.apply(ev)
+                    if i < len(base) + 1:
+                        continue  # the reports themselves are judged by the sweep; here only what follows them
+                    for k, w, _x in v:
+                        viols.append((k + "|after-report", f"after the internal message {hist[len(base)][1]}: {w}", {"cfg": cfg, "history": hist[: i + 1], "extra": None}))
+                    if v:
+                        break
+    return n, viols
+
+
 def stored_type_job(job):
     """A value of EVERY value type number is reported, stored, and asked for again (also with the gateway's version
     becoming known only in between): the request is answered with the stored value."""
@@ -410,6 +438,7 @@ def run(ctx: core.Ctx) -> core.Report:
     gres = bfs.search_many(ctx, MOD, grid, 1)
     tjobs = [(v, list(range(i, min(i + 8, 61)))) for v in versions for i in range(0, 61, 8)]
     tres = core.pmap(stored_type_job, tjobs, ctx.workers, chunksize=1)
+    tres += core.pmap(two_step_job, [(v, list(range(i, min(i + 6, 41)))) for v in ((None, "2.2") if ctx.quick else versions) for i in range(0, 41, 6)], ctx.workers, chunksize=1)
     from .. import explore
 
     xres = explore.explore(ctx, MOD, [{"lines": ls, "timeouts": 1} for ls in (["1;255;3;0;6;"], ["255;255;3;0;3;", "1;3;2;0;2;"], ["1;3;2;0;2;", "1;255;3;0;1;", "1;3;1;0;2;w"])], 1 if ctx.quick else 3)
@@ -421,7 +450,7 @@ def run(ctx: core.Ctx) -> core.Report:
         "traces_validated_against_impl": res["transitions"] + gres["transitions"],
         "exhaustive": False,
         "distinct_nontrivial_transitions": res["nontrivial_transitions"] + gres["nontrivial_transitions"],
-        "rule": "all histories to the stated depth over the alphabet; non-trivial = a step for which the reaction table expects at least one write; plus a depth-1 grid over time zones x instants x versions x metric, plus a depth-1 sweep of every type number 0-60 of presentation/set/req (known and unknown node), internal -1..40 and stream -1..8 in two base states per version, plus set + req of every value type 0-60 per version (and with the version becoming known in between), plus three scenarios (E2, <= 1/3 early firings) in which the wait for the next message times out while a reaction is being written",
+        "rule": "all histories to the stated depth over the alphabet; non-trivial = a step for which the reaction table expects at least one write; plus a depth-1 grid over time zones x instants x versions x metric, plus a depth-1 sweep of every type number 0-60 of presentation/set/req (known and unknown node), internal -1..40 and stream -1..8 in two base states per version, plus set + req of every value type 0-60 per version (and with the version becoming known in between), plus every internal type x 3 payloads from the gateway node and from a node followed by the four reaction triggers, plus three scenarios (E2, <= 1/3 early firings) in which the wait for the next message times out while a reaction is being written",
         "bounds": {"depth": depth, "per_cfg": res["per_cfg"], "grid_cfgs": len(grid)},
         "samples": ctx.pick(res["samples"], 3),
     }
